@@ -12,7 +12,7 @@ CAUGHT = {
  "C13a": "C13 `TV_Emitter`", "C14a": "C14 `TV_AnchorStore` (rebased)", "C15a": "C15 `TV_AnchorStore` histories, inner-call oracle (rebased)",
  "C01b": "C01: no return within the limit (`timeout`) for `!!null x` into unit targets (unit / Vec<unit struct> targets and tag tokens were added for it)",
  "C02b": "C02 `TV_LiveEvents` on stale-alias streams (added for it) and C11 `TV_Stream` (nested-anchor definition shape)",
- "C03b": "C03 `TV_MapAccess`", "C04b": "C04 `TV_MapAccess` (plain vs quoted spelling of a repeated key)", "C05b": "C05 `TV_TypedCursor` (surplus collection elements)",
+ "C03b": "C03 `TV_MapAccess`", "C04b": "C04 `TV_MapAccess` (plain vs quoted spelling of a repeated key) and `TR_MapAccess` (duplicate decision differs from the machine)", "C05b": "C05 `TV_TypedCursor` (surplus collection elements)",
  "C06b": "C06 `TV_Scalars` (43-digit octal)", "C07b": "C07 `TV_Budget` and `TR_Budget` (key / value phase after a complex key)",
  "C08b": "C08 `TV_Bounds` and `TR_LiveEvents` under tight limits (rebased)", "C09b": "C09 `TV_ReaderInput` (error position differs between entry points)",
  "C10b": "C10 `TV_ReaderInput` (EOF inside a code point)", "C11b": "C11 `TV_Stream`", "C12b": "C12 `TV_Quoting` (letter-case variants of null, added for it)",
@@ -20,6 +20,12 @@ CAUGHT = {
  "C16b": "C16 `TV_Locations` (`referenced-names-wrong-site`)", "C17b": "C17 `TV_Snippet` (`ring` family with the failing line inside the retained tail)",
  "C18b": "C18 `TV_PathMap` (use and definition site swapped for merged fields)", "C19b": "C19 `TV_Robotics` (`wrong-value` on the unit-form family, added for it)",
  "C20b": "C20 `TV_Emitter` (block-text pool for Lit / Fold wrappers, added for it)",
+ "C01c": "C01 (third round)", "C02c": "C02 `TV_LiveEvents`", "C12c": "C12 `TV_Quoting`", "C14c": "C14 `TV_AnchorStore`",
+ "C15c": "C15 `TV_AnchorStore` histories: the `valid-decoy` call (validation lookup with colliding decoy keys, added for it)",
+ "C13c": "C13 `TV_Emitter` on the composite-key family `Emitter!KeyNest` (multi-item sequence keys in every parent position, added for it; it also exposed two genuine defects, repaired by `b2473c6` and `1bea8f7`)",
+ "C16c": "C16 `TV_Locations`", "C17c": "C17 `TV_Snippet` (marker column of the definition window)",
+ "C19c": "C19 `TV_Robotics` (`wrong-value` on generated sexagesimal literals with fractions of up to 26 digits, added for it)",
+ "C20c": "C20 `TV_Emitter` on the deep-chain family `Emitter!DeepSet` and random chains of depth 4-20, with indent_step 8 (added for it)",
  "C16a": "C16 `TV_Locations` (`merged-entry-not-attributed-to-its-merge`)", "C17a": "C17 `TV_Snippet` (`ring` family)",
  "C18a": "C18 `TV_PathMap` through the Display channels", "C19a": "C19 `TV_Robotics` (`wrong-value`)", "C20a": "C20 `TV_Emitter`",
 }
